@@ -212,6 +212,10 @@ def env_redef1(rng, d):
         q["default"] = C11M.rand_path(rng, 4)
     if rng.random() < 0.3 and "allowedValues" in d:
         q["allowedValues"] = list(d["allowedValues"])
+    if rng.random() < 0.3:
+        q["userInterface"] = C10M.rand_ui(rng, ty)       # fits q's own constraints or q is redrawn; another template's are none of its business
+    if rng.random() < 0.15:
+        q["description"] = "from the environment"
     return q
 
 
